@@ -235,6 +235,8 @@ behaviour:
         m_mod_ps_publish(am, "topic", &payload_own, (m_ps_flags)0);
         m_ctx_dispatch();
         for (int i = 0; i < 6; i++) m_ctx_dispatch();
+        // (judged before the loop stops: the flush at loop stop hands over whatever a changed batching setting held back)
+        if (a_events < 1) v.fail("C14.2", "after foreign calls the module's own published message is not handed to it while the loop runs (subscription, handler or batching changed by a refused foreign call)");
         m_ctx_quit(0); m_ctx_dispatch();
         if (a_foreign_events) v.fail("C14.3", "a message sent from a foreign thread was delivered");
         if (a_events < 1) v.fail("C14.2", "after foreign calls the module no longer receives its own published message (subscription, handler or batching changed)");
